@@ -594,7 +594,8 @@ void op_run_t(size_t K, Cur &c, Out &o)
         v = Matrix<double>(vr, vc, vfill);
     }
     // optional: what the caller's label container holds before the call (0: empty; 1: as many entries as there are
-    // vertices, the first and the last already right, the others stale; 2: too many stale entries; 3: N stale entries)
+    // vertices, the first and the last already right, the others stale; 2: too many stale entries; 3: N stale entries;
+    // 4: exactly the vertex set in reverse order of first appearance)
     size_t lprior = c.p < c.t.size() ? c.nat() : 0;
     // optional: the shape of the caller's out-membership container; the library validates its element count only
     // (0: N x K, 1: K x N, 2: N*K x 1, 3: 1 x N*K)
@@ -623,6 +624,8 @@ void op_run_t(size_t K, Cur &c, Out &o)
             for (size_t p = 1; p + 1 < labels.size(); p++)
                 labels[p] = order[0];
         }
+        else if (lprior == 4)
+            labels.assign(order.rbegin(), order.rend());   // exactly the vertex set, in another order
         else
             labels.assign(order.size() + (lprior == 2 ? 2 : 0), order[0]);
     }
